@@ -26,7 +26,8 @@ func init() {
 			"both header checksum words, version, salt1, salt2, both cumulative checksum words on the verifying path, commit field != 0, key > commit) " +
 			"the success return / map update / frame counter increment becomes unreachable from the function entry when every branch edge on which F holds is deleted. " +
 			"Facts are derived from comparison operator and branch polarity, operands are identified by provenance (n-th result of a resolved callee, field, " +
-			"parameter, big-endian word at a constant header offset), not by text.",
+			"parameter, big-endian word at a constant header offset), not by text. " +
+			"Shared with C04: the cursor handed to the reader is the one verify established; on a restarted WAL (salts changed, last synced frame intact) every return carries offset = WALHeaderSize and the current header salts, so the copy never resumes inside the stale previous generation.",
 		NotDecided: "arithmetic of WALChecksum, equivalence with SQLite's recovery on arbitrary bytes, byte equality of copied pages",
 		Assumptions: []string{
 			"SQLite WAL format: header 32 bytes (magic@0, version@4, page size@8, salts@16/20, checksum@24/28), frame header 24 bytes (pgno@0, commit@4, salts@8/12, checksum@16/20)",
@@ -42,6 +43,9 @@ func runC09(c *Ctx) {
 	c09SyncReader(c)
 	// "no page beyond the committed database size": header Commit provenance
 	ltxHeaderRules(c)
+	// the cursor (offset, salts) the reader resumes at is the one verify established:
+	// on a restarted WAL it is the header with the current salts (shared with C04)
+	c04DefaultDeny(c)
 }
 
 func isReadAt(s string) bool { return s == "iface:io.ReaderAt.ReadAt" || s == "(*os.File).ReadAt" }
